@@ -52,6 +52,34 @@ claim("C12",
       "Every signature of a family built with reflect.FuncOf/MakeFunc (0..2/3 fixed parameters over 5 types x 10 tails incl. options map / helper context in both typings / 3 variadic tails x 6 result shapes) x every argument list of length 0..3/4 over 8 values (incl. nil, typed nil pointer) with logging wrappers, with and without a block; compared with a reference binder (who is invoked, with which values, argument evaluation log, auto-supplied map/context carrying the block, result and error handling).",
       EXEC_NOTE + " Omitted ordinary (non map/context) parameters are treated as unspecified.", "bounded exhaustive enumeration of (signature x call shape) on the real call binder vs. a reference binder, with recording helpers", "DESIGN.md §4 C12")
 
+claim("C01",
+      "payload x source x value-route^d x emit-form x wrapper^e: 20 sources (incl. the 4 trusted ones), 11 value routes, 9 emit forms, 12 wrappers, 9 payloads, d<=1/2, e<=2, plus every single byte 0x01..0xFF and every string of length <=3 over a 10-symbol alphabet through all sources; a reference evaluator over the route yields the expected atom list (plain | trusted | literal frame) and the output is walked along it: plain atoms fully entity-escaped (any spelling), trusted atoms verbatim, nothing dropped or doubled. The sink is reached by different code on every route, so routes are enumerated rather than sampled.",
+      EXEC_NOTE, "bounded exhaustive enumeration of data-flow routes on the real evaluator vs. a reference atom model", "DESIGN.md §4 C01")
+claim("C13",
+      "Three exhaustive families: (paths) every program of a construct-covering corpus + hash-literal/side-effect family x 2 data sets through fresh parse, 3 repeated executions, Clone, cache cold/warm/off with a deep structural hash (reflection over all fields, cycle-safe) of the parsed program before/after every execution; (env) every map-iteration call made during an execution is an environment choice point supplied through a runtime overlay — all single (pairs in thorough) deviations from the default order must give the same (out, err, side-effect log); (hist) every history of length <=3/4 over a 38-operation alphabet (fresh/exec/clone/render x 4 templates x 2 data, cache toggle, CacheSet) from a cold and a warm cache, each result compared with the pristine reference, all live programs re-hashed, cache entries checked against their key.",
+      EXEC_NOTE + " Map iteration order is controlled through an overlay of runtime/map.go (go1.23): order dependence that shows with some probability per run shows on every run.", "explicit enumeration of operation histories + environment-answer (map order) enumeration on the real code; deep AST hashing via the verif hook", "DESIGN.md §4 C13")
+claim("C14",
+      "Part A: stateless exploration of ALL interleavings with a bounded number of preemptions of the real code under a hand-written cooperative scheduler (overlay: scheduling points at every function entry/loop of the root package and every mutex operation; sync replaced by a shim): one template executed by 2 threads with own contexts / children of a shared parent (12 construct classes), cold-cache Render, Parse vs CacheSet — each thread must return its solo result, no deadlock/panic; context operations with unbounded preemptions checked for linearizability by brute force. Part B: the same scenario bodies free-running in a separate -race build with 2/8/32 goroutines, repeated; every race report or concurrent-map fatal error is a violation.",
+      EXEC_NOTE + " Part B is dynamic race detection over an exhaustively enumerated scenario set, not an enumeration of interleavings (a cooperative scheduler's hand-offs are happens-before edges that blind the detector); memory-model effects below Go's happens-before are not modelled.", "stateless model checking of the implementation under a controlled scheduler (iterative context bounding, DFS over choice prefixes) + free-running race detector pass", "DESIGN.md §4 C14")
+claim("C15",
+      "Every template made of <=3/4 preceding items from 14 line-affecting kinds (text, CRLF, multi-line tags/strings/comments, # comments, blocks spanning lines, escaped tag) followed by one of 24 failing statements (runtime faults, syntax-error families, multi-line failing tags, unterminated string) in 7 placements; error must start with line N:, N must be the failing tag's line (within its extent when multi-line), and shifting by k=1..3 leading newlines must change exactly the line numbers.",
+      EXEC_NOTE, "bounded exhaustive enumeration of multi-line templates on the real lexer/parser/evaluator with an absolute and a metamorphic (shift) oracle", "DESIGN.md §4 C15")
+claim("C16",
+      "Every decision-chain function of p<=2 (3 reduced / full in thorough) parameters with <=2 conditions and 4 kinds of returned values (plus nested-if and let shapes, a side-effecting statement after every return) x every argument tuple over literals, outer variables named like the parameters and a nested call of the same function x 12 ways of using the result; plus nested/re-entrant calls, higher-order use, storage and passing of functions, recursion. Compared with a reference evaluation of the chain.",
+      EXEC_NOTE, "bounded exhaustive enumeration of function definitions x argument tuples x result uses on the real evaluator vs. a reference evaluator", "DESIGN.md §4 C16")
+claim("C17",
+      "All combinations of 10 partial bodies x 5 data maps x 4 layouts (incl. a layout that itself uses a partial with a layout) x 3 content types x 3 name extensions x 5 placements, every contentFor/contentOf program of <=4 items (incl. uses inside for / function bodies), and block helpers using Block()/BlockWith()/Block() twice; oracle is differential: the same sources rendered by plush itself as standalone templates in the equivalent scope, composed at string level (JS case: JSEscapeString), plus a counting marker for exactly-once insertion.",
+      EXEC_NOTE + " The composition logic of partial (child scope, JS escaping, layout recursion) is re-stated in the oracle; the bodies are rendered by plush itself.", "bounded exhaustive enumeration of compositions on the real code with a differential (inline rendering) oracle", "DESIGN.md §4 C17")
+claim("C18",
+      "28 programs as token lists: every single gap and every pair of gaps between adjacent tokens replaced by each of {tab, newline, CRLF, two spaces, # line comment, empty where gluing is token-preserving}, a comment tag spliced in at every statement boundary inside blocks; every statement sequence of <=3/4 from 10 statements cut into tags in every way (incl. statements directly after a closing brace) with comment tags / line comments at the boundaries; oracle is differential against the canonical layout (errors compared modulo line N:).",
+      EXEC_NOTE, "bounded exhaustive enumeration of re-layouts (deviation-bounded: <=2 gap deviations) on the real lexer/parser with a differential oracle", "DESIGN.md §4 C18")
+claim("C19",
+      "range/between for all pairs and until for all values over [-8,8] plus the 4 int extremes, drained under a Next() budget; groupBy in both shipped implementations for every length 0..40 x n in -1..12 x 4 element types x 4 container shapes with the partition laws and group-by-group equality of the implementations; len over all listed kinds; small cases also through template for loops.",
+      EXEC_NOTE, "exhaustive enumeration of a finite argument domain on the real helper functions vs. arithmetic/partition laws", "DESIGN.md §4 C19")
+claim("C20",
+      "truncate over every string of length <=4/5 over a 14-symbol alphabet (ASCII, multi-byte, combining, invalid UTF-8, specials) x 14 sizes x 6 trails and patterned strings of every length 0..64 x every size in [-2,70] x 6 trails against the stated laws; htmlEscape/jsEscape/raw over the same strings (direct and through templates); toJSON over a recursive value generator and all short control-character strings: valid JSON, round trip, no raw < > &.",
+      EXEC_NOTE, "exhaustive enumeration of short strings / generated values on the real helper functions vs. the stated laws", "DESIGN.md §4 C20")
+
 def main():
     repo_head = subprocess.run(["git", "-C", "/repo", "log", "--format=%H %s"], capture_output=True, text=True).stdout.strip().split("\n")
     hook_commits = [l.split()[0] for l in repo_head if " verif:" in l]
